@@ -105,14 +105,123 @@ def fingerprint(o, ids):
     return canon(o)
 
 
+def binding_items():
+    """Module-level and class-level NAME BINDINGS of rtflite whose value is not a container / rtflite instance
+    (those are covered by census_objects) and not a function / class / module: scalars by value, other objects by type.
+    Catches state kept by rebinding a global (`_last_key = key`)."""
+    out = []
+    for name, mod in sorted(sys.modules.items()):
+        if not name.startswith("rtflite") or mod is None:
+            continue
+        for k, v in sorted(vars(mod).items()):
+            if k.startswith("__"):
+                continue
+            cands = [(f"{name}.{k}", v)]
+            if isinstance(v, type) and (v.__module__ or "") == name:
+                cands = [(f"{name}.{k}.{ak}", av) for ak, av in sorted(vars(v).items()) if not (ak.startswith("__") and ak.endswith("__"))]
+            for label, av in cands:
+                if isinstance(av, (types.FunctionType, types.BuiltinFunctionType, types.MethodType, type, types.ModuleType, classmethod,
+                                   staticmethod, property, dict, list, set)):
+                    continue
+                if type(av).__name__ in ("ContextVar", "cython_function_or_method", "_lru_cache_wrapper", "member_descriptor", "getset_descriptor"):
+                    continue
+                if hasattr(av, "__dict__") and (type(av).__module__ or "").startswith("rtflite"):
+                    continue
+                if isinstance(av, IMMUT + (tuple,)):
+                    r = repr(av)
+                    out.append((label, r if len(r) < 200 else hashlib.md5(r.encode()).hexdigest()))
+                elif (type(av).__module__ or "").split(".")[0] in ("typing", "re", "pydantic", "pydantic_core", "abc", "functools", "collections", "enum", "_thread"):
+                    continue
+                else:
+                    out.append((label, f"<{type(av).__module__}.{type(av).__qualname__}>"))
+    return out
+
+
 def census_items():
     objs = census_objects()
     ids = {i: label for i, (label, _) in objs.items()}
-    return sorted(((l, fingerprint(o, ids)) for l, o in objs.values()), key=lambda t: t[0])
+    return sorted([(l, fingerprint(o, ids)) for l, o in objs.values()] + [("=" + l, v) for l, v in binding_items()], key=lambda t: t[0])
+
+
+def census_light():
+    """Cheap variant for discovery heuristics only (NOT for state identity): big containers are fingerprinted by
+    length and a few probes instead of their whole content."""
+    objs = census_objects()
+    ids = {i: label for i, (label, _) in objs.items()}
+    parts = []
+    for label, o in objs.values():
+        if isinstance(o, (dict, list, set)) and len(o) > 64:
+            probe = ""
+            try:
+                if isinstance(o, list):
+                    probe = repr((o[0], o[-1]))[:200]
+                elif isinstance(o, dict):
+                    k = next(iter(o))
+                    probe = repr((k, o[k]))[:200]
+            except Exception:  # noqa: BLE001
+                pass
+            parts.append((label, f"{type(o).__name__}#{len(o)}:{probe}"))
+        else:
+            parts.append((label, fingerprint(o, ids)))
+    parts += [("=" + l, v) for l, v in binding_items()]
+    return hashlib.md5(repr(sorted(parts)).encode()).hexdigest()
+
+
+def make_light_fingerprint():
+    """Closure over the CURRENT set of census objects and name bindings (computed once): a very cheap fingerprint
+    for the discovery heuristics.  Containers: length + identity-free probes; small ones and instances: full render;
+    bindings: identity of the bound object (rebinding a global is what it is meant to notice)."""
+    objs = list(census_objects().values())
+    ids = {id(o): label for label, o in objs}
+    binds = []
+    for name, mod in sorted(sys.modules.items()):
+        if not name.startswith("rtflite") or mod is None:
+            continue
+        for k, v in vars(mod).items():
+            if k.startswith("__") or isinstance(v, (types.FunctionType, type, types.ModuleType)):
+                continue
+            binds.append((mod, k))
+    small = [(l, o) for l, o in objs if not (isinstance(o, (dict, list, set)) and len(o) > 64)]
+    big = [(l, o) for l, o in objs if isinstance(o, (dict, list, set)) and len(o) > 64]
+
+    def fp():
+        parts = [len(o) for _, o in big]
+        parts += [fingerprint(o, ids) for _, o in small]
+        parts += [id(getattr(m, k, None)) for m, k in binds]
+        return hash(tuple(parts))
+
+    return fp
 
 
 def census():
     return hashlib.md5("|".join(f"{l}={c}" for l, c in census_items()).encode()).hexdigest()
+
+
+_MISSING = object()
+
+
+def _content(v):
+    if isinstance(v, dict):
+        return ("dict", dict(v))
+    if isinstance(v, list):
+        return ("list", list(v))
+    if isinstance(v, set):
+        return ("set", set(v))
+    return None
+
+
+def _restore_content(v, content):
+    if content is None:
+        return
+    kind, saved = content
+    if kind == "dict" and v != saved:
+        v.clear()
+        v.update(saved)
+    elif kind == "list" and v != saved:
+        v[:] = saved
+    elif kind == "set" and v != saved:
+        v.clear()
+        v.update(saved)
 
 
 class Snapshot:
@@ -134,10 +243,29 @@ class Snapshot:
                 except LookupError:
                     self.snap[i] = ("cv-unset", o, None)
             else:
-                self.snap[i] = ("obj", o, copy.copy(vars(o)))
+                # instance: remember every attribute binding and, for plain containers held in attributes, their content
+                self.snap[i] = ("obj", o, {k: (v, _content(v)) for k, v in vars(o).items()})
         self.names = self._names()
+        self.bindings = self._bindings()
         self.c0 = census()
         self.n = len(self.snap)
+
+    @staticmethod
+    def _bindings():
+        """(owner object, attribute name) -> bound object, for every module-level / class-level name of rtflite"""
+        out = []
+        for name, mod in sys.modules.items():
+            if not name.startswith("rtflite") or mod is None:
+                continue
+            for k, v in vars(mod).items():
+                if k.startswith("__"):
+                    continue
+                out.append((mod, k, v))
+                if isinstance(v, type) and (v.__module__ or "") == name:
+                    for ak, av in vars(v).items():
+                        if not (ak.startswith("__") and ak.endswith("__")) and not isinstance(av, (types.FunctionType, classmethod, staticmethod, property)):
+                            out.append((v, ak, av))
+        return out
 
     @staticmethod
     def _names():
@@ -169,9 +297,18 @@ class Snapshot:
                 o.set(snap)
             elif kind == "obj":
                 d = vars(o)
-                if d != snap or any(d[k] is not snap[k] for k in snap):
+                if set(d) != set(snap) or any(d[k] is not snap[k][0] for k in snap):
                     d.clear()
-                    d.update(snap)
+                    d.update({k: v for k, (v, _) in snap.items()})
+                for k, (v, content) in snap.items():
+                    _restore_content(v, content)
+        # names re-bound since the snapshot (state kept in a global scalar or object) get their original object back
+        for owner, k, v in self.bindings:
+            try:
+                if getattr(owner, k, _MISSING) is not v:
+                    setattr(owner, k, v)
+            except (AttributeError, TypeError):
+                pass
         # globals / class attributes created lazily after the snapshot are removed again
         for name, mod in list(sys.modules.items()):
             if not name.startswith("rtflite") or mod is None:
